@@ -14,6 +14,9 @@ fn main() {
         }
         "c03" => checks::c03::run(&a),
         "c04" => checks::c04::run(&a),
+        "c05" => checks::c05::run(&a),
+        "c06" => checks::c06::run(&a),
+        "c07" => checks::c07::run(&a),
         "c11" => checks::c11::run(&a),
         other => {
             eprintln!("unknown check {other}");
